@@ -48,18 +48,9 @@ for _n in (1, 2, 3, 4, 5):
       "String::try_unpack never panics; Ok <=> header readable, declared bytes present and valid UTF-8 by an independent validator; "
       "the unchecked unpack (from_utf8_unchecked) then returns the same bytes", tier="quick" if _n < 5 else "thorough")
 
-# ---------------------------------------------------------------------------------------------
-group("G-HEX-rle", "hexane", "hx_rle_load.rs", "rle::load",
-      ["rle::load::rle_validate_encoding", "rle::decoder::RleDecoder::{new,try_next_segment,advance_run,next,next_run,next_run_max,pos}",
-       "rle::decoder::RleSegment::validate_after", "<u64|Option<u64>|String as RleValue>::{try_unpack,unpack}"],
-      assumptions=["rle_validate_encoding is the validation kernel: RleLoadIter::{try_next_run,finalize} (what Column::load runs) performs the same "
-                   "try_next_segment + validate_after walk plus slab cutting, which is not encoded"])
-for _t, _p in (("u64", HX), ("opt_u64", HX), ("string", HXS)):
-    for _n in (1, 2, 3, 4, 5):
-        H("G-HEX-rle", "rle_contract_%s_len%d" % (_t, _n), _p, "EVERY byte string of length %d as an RLE slab of %s; unwind %d" % (_n, _t, _n + 3),
-          "validation never panics; if it accepts, the UNCHECKED decoder walks the slab without panicking, yields exactly info.segments runs / info.len items"
-          + ("; every &str it yields is valid UTF-8 (independent validator)" if _t == "string" else ""),
-          tier="quick" if _n < 5 else "thorough")
+# G-HEX-rle (rle_validate_encoding vs. the unchecked RleDecoder) was written but never calibrated: every rung, including
+# the 1-byte slab, ran into the 300 s harness timeout (suspected: the Display formatting in
+# `map_err(|e| PackError::InvalidValue(e.to_string()))`). It is not registered; see DESIGN.md section 9.
 
 # harnesses in the crate root module are named "verif_kani::<fn>" (no leading module path)
 for _h in HARNESSES:
